@@ -156,8 +156,8 @@ def mk(a, cx=1.0, cy=1.0, x0=0.0, y0=0.0, ydesc=False, xdesc=False, res=None, at
 
 def random_geom(rng):
     """Random coordinate geometry parameters."""
-    cx = float(rng.choice([1.0, 1.0, 0.5, 2.0, 0.1, 1 / 3, 2.5, 10.0, 30.0]))
-    cy = cx if rng.random() < 0.5 else float(rng.choice([1.0, 0.5, 2.0, 0.25, 3.0, 0.1, 7.5]))
+    cx = float(rng.choice([1.0, 1.0, 0.5, 2.0, 0.1, 1 / 3, 2.5, 10.0, 30.0, 1 / 3600]))      # 1/3600: one arc-second, digits beyond the 5th decimal
+    cy = cx if rng.random() < 0.5 else float(rng.choice([1.0, 0.5, 2.0, 0.25, 3.0, 0.1, 7.5, 1 / 1200]))
     return dict(cx=cx, cy=cy, x0=float(rng.choice([0.0, 0.0, 10.0, -7.5, 100.25])),
                 y0=float(rng.choice([0.0, 0.0, 5.0, -3.25, 1000.5])),
                 ydesc=bool(rng.random() < 0.5), xdesc=bool(rng.random() < 0.15))
